@@ -867,7 +867,7 @@ def run(ctx):
     shapes = [(1, 1), (1, 3), (3, 1), (2, 2), (2, 3), (3, 2), (4, 3), (3, 5), (5, 5), (1, 5), (5, 1), (4, 4)]
     class_sets = [("count",), ("smallcount",), ("count", "dyadic", "neg"), ("dyadic",), ("neg",),
                   ("big", "tiny"), ("bits",), ("count", "big", "bits")]
-    n_groups = 36 if quick else 1500
+    n_groups = 60 if quick else 1500
     kept = []
     for g in range(n_groups):
         if g < len(shapes):
@@ -906,7 +906,7 @@ def run(ctx):
         return sum(1 for k in kinds if k.startswith("omd")) <= 1 and sum(1 for k in kinds if k.startswith("smd")) <= 1
     pairs = [p for p in pairs if compatible(p)]
     triples = [p for p in triples if compatible(p)]
-    budget = 1400 if quick else 60000
+    budget = 3000 if quick else 60000
     done = 0
     it = 0
     while done < budget:
@@ -930,7 +930,7 @@ def run(ctx):
     for lines in fixed_adj:
         for mode in ("list", "list_nl", "tuple", "str", "str_nl", "file"):
             run_adjacency(ctx, {"op": "adjacency", "lines": lines, "mode": mode}, ("adjacency", "fixed"))
-    for i in range(350 if quick else 20000):
+    for i in range(700 if quick else 20000):
         lines = gen_adjacency(rng, odd=(i % 3 == 0))
         mode = rng.choice(["list", "list_nl", "tuple", "str", "str_nl", "file"])
         tags = ["adjacency"]
@@ -942,7 +942,7 @@ def run(ctx):
         run_adjacency(ctx, {"op": "adjacency", "lines": lines, "mode": mode}, tags)
 
     # ---- uc
-    for i in range(350 if quick else 20000):
+    for i in range(700 if quick else 20000):
         lines, seeds = gen_uc(rng)
         tags = ["uc"]
         fasta = None
